@@ -1,6 +1,8 @@
 #!/usr/bin/env bash
 # tools/run_tier.sh <tier> <ID>...   — run several checks in sequence, print one summary line each.
 TIER="$1"; shift
+# under `vp run --with-repo` build against the repository snapshot (immune to experiments in /repo)
+[ -n "${VP_RUN_REPO:-}" ] && export VERIF_REPO="$VP_RUN_REPO"
 for id in "$@"; do
   s=$(date +%s)
   out=$(./check "$id" "$TIER" 2>&1 | grep -E "^(OK|VIOLATION|KNOWN-FINDING|infra)" | head -5 | tr '\n' ' ')
